@@ -56,7 +56,7 @@ COLS = gens.COLS
 CLASSES = ["cbd_clusters", "sx_blobs", "sx_faces", "cbd_lower_geom1", "sx_noise_dense", "cbd_overlapping_groups", "cbd_chain",
            "sx_files", "cbd_shift_decisive", "sx_integer_diameter", "sx_noncubic", "cbd_extreme_d", "sx_negative", "cbd_near_tie",
            "cbd_small_n", "sx_sigma", "cbd_odd_labels", "sx_extreme_diameter", "sx_few_supra", "cbd_equal_scores_apart",
-           "sx_zero_threshold", "sx_big_angle_list"]
+           "sx_zero_threshold", "sx_big_angle_list", "cbd_float32_collapse"]
 SX_COLS = ["x", "y", "z", "score", "phi", "theta", "psi"]
 ANGLE_TOL = 1e-9        # degrees: pandas' CSV float parser is not correctly rounded (1 ulp off on 17-digit decimals)
 
@@ -67,11 +67,11 @@ ENV = {"OMP_NUM_THREADS": "1", "OPENBLAS_NUM_THREADS": "1", "MKL_NUM_THREADS": "
 
 def plan(tier):
     if tier == "quick":
-        return dict(n_cases=440, shards=2, classes=CLASSES, timeout_s=600, env=ENV,
+        return dict(n_cases=460, shards=2, classes=CLASSES, timeout_s=600, env=ENV,
                     min_evals={"cbd_rows": 800, "cbd_separated": 800, "cbd_dominated": 800, "cbd_isolation": 1400,
                                "cbd_metamorphic": 300, "sx_threshold": 1200, "sx_score": 1200, "sx_angles": 1200,
                                "sx_separated": 1200, "sx_dominated": 1200, "sx_relational": 250})
-    return dict(n_cases=3520, shards=16, classes=CLASSES, timeout_s=3000, env=ENV,
+    return dict(n_cases=3680, shards=16, classes=CLASSES, timeout_s=3000, env=ENV,
                 min_evals={"cbd_rows": 8000, "cbd_separated": 8000, "cbd_dominated": 8000, "cbd_isolation": 12000,
                            "cbd_metamorphic": 2200, "sx_threshold": 8000, "sx_score": 8000, "sx_angles": 8000,
                            "sx_separated": 8000, "sx_dominated": 8000, "sx_relational": 1800})
@@ -464,8 +464,19 @@ def _build_cbd(rng, cls, big):
         odd = np.array([0.0, -7.0, 1e6, 2.5, 3.0, 1e-3, -0.5, 65537.0, 12.0])
         pool = rng.choice(odd, ng, replace=False)
         lab = rng.choice(pool, n)
-    elif cls == "cbd_equal_scores_apart":
-        pass
+    elif cls == "cbd_float32_collapse":
+        # metrics distinct in float64 but equal (or mis-ordered) once rounded to float32; rank order != row order
+        metric = str(rng.choice(["score", "geom1", "subtomo_id", "geom3", "geom4"]))
+        fmode = str(rng.choice(["close_floats", "big_integers"])) if metric != "subtomo_id" else "big_integers"
+        rank = rng.permutation(n).astype(np.float64)
+        if fmode == "close_floats":
+            v0 = float(rng.choice([1.0, -1.0])) * float(10 ** rng.uniform(-1, 3))
+            df[metric] = v0 * (1.0 + rank * float(10 ** rng.uniform(-9, -7.3)))
+        else:
+            basev = float(rng.choice([2 ** 24, 2 ** 25 + 1, 2 ** 26 - 200, 3 * 2 ** 24, 2 ** 30])) * (1.0 if metric == "subtomo_id" else float(rng.choice([1.0, -1.0])))
+            df[metric] = basev + rank * float(rng.choice([1, 1, 2]))
+        d = sigma * float(rng.uniform(1.0, 3.0))
+        info["float32_mode"] = fmode
     if P is not None:
         _split_positions(rng, df, P, shift_scale=float(rng.choice([0.5, 3.0, 10.0])))
     df[feature] = lab
@@ -795,7 +806,7 @@ def _variant(rng, name, c, base_ids):
         return df, dict(kg=kg), base_ids
     if name == "negate_metric":
         df[metric] = -df[metric].to_numpy(dtype=float)
-        return df, dict(kg=not kg), base_ids
+        return df, dict(kg=not kg), (sorted(-x for x in base_ids) if metric == "subtomo_id" else base_ids)
     if name == "perturb_other_groups":
         lab = df[feature].to_numpy(dtype=float)
         vals = np.unique(lab)
@@ -886,13 +897,19 @@ def _write_inputs(ctx, c, tag, S, A, L, io, order):
     if io["list"] == "array":
         out.append(np.array(L))
     else:
-        p = os.path.join(ctx.scratch, "c07_l_%d_%s.csv" % (c["i"], tag))
-        cols = L[:, [0, 2, 1]] if order == "zzx" else L          # file columns: zxz -> phi,theta,psi ; zzx -> phi,psi,theta
-        with open(p, "w") as f:
-            for r in cols:
-                f.write(",".join(repr(int(v)) if (float(v).is_integer() and c["i"] % 2 == 0) else repr(float(v)) for v in r) + "\n")
+        # a pool of two REUSED paths: consecutive cases of a shard, and the calls within one case, read different lists
+        # (and different column orders) from the same file name
+        p = os.path.join(ctx.scratch, "c07_anglist_p%d.csv" % ((c["i"] // 2) % 2))
+        _write_list_csv(p, L, order, c["i"] % 2 == 0)
         out.append(p)
     return out
+
+
+def _write_list_csv(p, L, order, ints_plain):
+    cols = L[:, [0, 2, 1]] if order == "zzx" else L          # file columns: zxz -> phi,theta,psi ; zzx -> phi,psi,theta
+    with open(p, "w") as f:
+        for r in cols:
+            f.write(",".join(repr(int(v)) if (float(v).is_integer() and ints_plain) else repr(float(v)) for v in r) + "\n")
 
 
 def _peak_table(motl):
@@ -919,6 +936,8 @@ def _run_sx(ctx, c):
     T0 = _peak_table(motl)
     k0 = c["i"] // len(CLASSES)
     variants = []
+    if c["io"]["list"] == "csv":
+        variants += ["same_list_file_other_order", "list_file_rewritten"]
     if c["io"] != {"scores": "array", "angles": "array", "list": "array"}:
         variants.append("arrays_instead_of_files")
     elif k0 % 3 == 0:
@@ -927,7 +946,22 @@ def _run_sx(ctx, c):
     for name in variants:
         kw2 = dict(kw)
         expect = T0
-        if name == "arrays_instead_of_files":
+        if name == "same_list_file_other_order":
+            # the very same file, untouched, read with the other column order: theta and psi change places
+            a2 = list(args)
+            kw2["angles_order"] = "zzx" if kw["angles_order"] == "zxz" else "zxz"
+            if T0 is not None:
+                expect = T0[:, [0, 1, 2, 3, 4, 6, 5]]
+        elif name == "list_file_rewritten":
+            # same path, new content (rows rotated by one and shifted): every peak's angles must follow the file
+            L2 = np.roll(L, 1, axis=0) + np.array([0.5, 0.25, -0.5])
+            _write_list_csv(args[2], L2, kw["angles_order"], False)
+            a2 = list(args)
+            if T0 is not None:
+                v = np.round(T0[:, :3]).astype(int) - 1
+                expect = T0.copy()
+                expect[:, 4:7] = L2[np.asarray(A)[v[:, 0], v[:, 1], v[:, 2]].astype(np.int64) - c["numbering"]]
+        elif name == "arrays_instead_of_files":
             a2 = [S, A, np.array(L)]                 # S is float32 whenever the scores came from a file
         elif name == "files_instead_of_arrays":
             if S.dtype != np.float32 and c["thr_kind"].startswith("sigma"):
@@ -966,6 +1000,7 @@ def _run_sx(ctx, c):
                 kw2["angles_order"] = "zxz"
         if name in ("arrays_instead_of_files",):
             kw2["angles_order"] = "zxz"
+        # (kw2["angles_order"] of the two list-file variants was set above)
         ok, mv = ctx.call("scores_extract_particles[%s]" % name, tm.scores_extract_particles, a2[0], a2[1], a2[2], c["tomo_id"], c["dia"], **kw2)
         if not ok:
             continue
